@@ -1,5 +1,6 @@
 """C07 - pickle steps = in-scope background steps followed by the scenario's own steps."""
 from . import compiler_rules as cr
+from . import shape_rules as sh
 
 META = {
     "level": "other",
@@ -13,6 +14,7 @@ META = {
 
 
 def run(rep):
+    sh.rule_key_reads(rep, "C07.reads")
     cr.rule_skel(rep, "C07.skel")
     cr.rule_steps(rep, want=("order", "guard", "fresh", "args"))
     cr.rule_input(rep, "C07.isolation")
